@@ -103,6 +103,170 @@ def py_c07_check(adj, tasks, t, draw, r):
     return True
 
 
+def job_dag(rng):
+    """a job graph with 1-3 conditional/join pairs in sequence, each possibly with a nested pair inside a branch;
+    branches are chains (or empty: a direct edge to the join); random declaration order"""
+    nxt = [1]
+    ch, flags = {}, {}
+
+    def new():
+        nxt[0] += 1
+        ch[nxt[0] - 1] = []
+        return nxt[0] - 1
+
+    def chain(n):
+        ns = [new() for _ in range(n)]
+        for a, b in zip(ns, ns[1:]):
+            ch[a].append(b)
+        return ns
+
+    def block(depth):
+        c, t = new(), new()
+        flags[c], flags[t] = "cond", "term"
+        for _ in range(rng.choice([2, 2, 3])):
+            r = rng.random()
+            if r < 0.12:
+                ch[c].append(t)
+            elif r < 0.35 and depth == 0:
+                c2, t2 = block(1)
+                ch[c].append(c2)
+                if rng.random() < 0.5:
+                    z = chain(1)
+                    ch[t2].append(z[0])
+                    ch[z[0]].append(t)
+                else:
+                    ch[t2].append(t)
+            else:
+                ns = chain(rng.choice([1, 1, 2]))
+                ch[c].append(ns[0])
+                ch[ns[-1]].append(t)
+        ch[c] = list(dict.fromkeys(ch[c]))
+        return c, t
+    prev = None
+    if rng.random() < 0.6:
+        prev = chain(1)[0]
+    for _ in range(rng.choice([1, 2, 2, 3])):
+        c, t = block(0)
+        if prev is not None:
+            ch[prev].append(c)
+        prev = t
+        if rng.random() < 0.4:
+            m = chain(1)[0]
+            ch[prev].append(m)
+            prev = m
+    keys = list(ch)
+    rng.shuffle(keys)                      # the declaration order
+    adj = [[k, ch[k]] for k in keys]
+    jobs = {}
+    for k in keys:
+        jobs[k] = [flags.get(k) == "term", flags.get(k) == "cond", tg.DEN]
+    for k in keys:
+        if flags.get(k) == "cond":
+            n = len(ch[k])
+            cuts = sorted(rng.randint(0, tg.DEN) for _ in range(n - 1))
+            for c, p in zip(ch[k], [b - a for a, b in zip([0] + cuts, cuts + [tg.DEN])]):
+                jobs[c][2] = p
+    return adj, jobs
+
+
+def py_ref_resolve(canon, jobs):
+    """reference of the resolution at submission (same as Model ref_resolve_loop): closure instead of breadth_first"""
+    ch = dict((a, b) for a, b in canon)
+    probs = {n: jobs[n][2] for n, _ in canon}
+    counter = 0
+    for n, _ in canon:
+        if not jobs[n][1] or not ch[n]:
+            continue
+        ks = ch[n]
+        idx = counter % len(ks) if counter >= len(ks) else counter
+        counter = idx + 1
+        for c in ks:
+            if c == ks[idx]:
+                probs[c] = tg.DEN
+            else:
+                probs[c] = 0
+                if not jobs[c][0]:
+                    seen, todo = {c}, [c]
+                    while todo:
+                        x = todo.pop()
+                        for d in ch[x]:
+                            if d not in seen and not jobs[d][0]:
+                                seen.add(d)
+                                todo.append(d)
+                    for d in seen:
+                        probs[d] = 0
+    return probs
+
+
+def submission_stream(ctx, quick):
+    rng = ctx.rng
+    cases, structured = [], []
+    for i in range(150 if quick else 3000):
+        if rng.random() < 0.75:
+            adj, jobs = job_dag(rng)
+            structured.append(True)
+        else:                              # arbitrary DAG / flags: correspondence only
+            adj = tg.rand_dag(rng, rng.choice([2, 3, 4, 5, 6]), rng.choice([0.3, 0.5]))
+            nodes = tg.key_order(adj)
+            jobs = {n: [rng.random() < 0.25, rng.random() < 0.3, rng.choice([0, 4, 8, 16])] for n in nodes}
+            structured.append(False)
+        cases.append((adj, jobs))
+    impl = core.run_impl("taskgraph.py", {"submission_probs": [{"adj": a, "jobs": {str(k): v for k, v in j.items()}, "den": tg.DEN}
+                                                                for a, j in cases]})["submission_probs"]
+
+    def g_adj(a):
+        return glist(["(%s, %s)" % (gz(n), glist([gz(c) for c in cs])) for n, cs in a])
+
+    def g_probs(ps):
+        return glist(["(%s, %s)" % (gz(n), gz(p)) for n, p in ps])
+    mcases, mon, monw = [], [], []
+    for k, ((adj, jobs), (canon, r)) in enumerate(zip(cases, impl)):
+        terms = glist([gz(n) for n in jobs if jobs[n][0]])
+        conds = glist([gz(n) for n in jobs if jobs[n][1]])
+        before = [[n, jobs[n][2]] for n, _ in canon]
+        mcases.append(("(%s, %s, %s, %s, %s)" % (g_adj(adj), terms, conds, gz(tg.DEN), g_probs(before)), r,
+                       {"declaration_order_mapping": adj, "jobs(terminal,conditional,prob/16)": jobs}))
+        if structured[k] and r[0] == 0:
+            mon.append("(%s, %s, %s, %s, %s, %s)" % (g_adj(canon), terms, conds, gz(tg.DEN), g_probs(before), g_probs(r[1])))
+            monw.append(k)
+    ctx.rules.append("S-submission: the real JobGraph._generate_task_graph with resolve_conditionals_at_submission on generated job "
+                     "graphs: 1-3 conditional/join pairs in sequence, nested pairs, chains of unequal length, direct edges to the join, "
+                     "random DECLARATION order (75%%), arbitrary DAGs and flags (25%%); the probability of every task afterwards is "
+                     "compared with the model resolve_at_submission (breadth_first of Model/Graph.v) and, on the structured graphs, "
+                     "checked by sub_check against a reference that uses a reachability closure instead of breadth_first")
+    ctx.cov["distinct_nontrivial"] += len({repr(c) for c in cases})
+    try:
+        for idx, mv in ctx.model_stream("S-submission", tg.HEADER, "list (Z * list Z) * list Z * list Z * Z * list (Z * Z)",
+                                        "sub_observe", mcases)[:3]:
+            ctx.violation("submission%d" % idx, {"stream": "S-submission", "case": mcases[idx][2], "implementation": mcases[idx][1],
+                                                 "model": mv, "what": "probabilities after resolution at submission differ from the model"})
+    except core.ModelEvalError as e:
+        ctx.broken.append({"kind": "correspondence", "name": "S-submission", "detail": str(e)[-600:]})
+    what = ("resolution at submission: every conditional (in declaration order, round-robin choice) must leave exactly its chosen child "
+            "at 1, the other children and the interior of their branches (up to but excluding the joins) at 0, and must not touch "
+            "anything from the join on")
+
+    def report(k, extra=""):
+        adj, jobs = cases[k]
+        ctx.violation("subcheck%d" % k, {"stream": "S-submission monitor", "declaration_order_mapping": adj,
+                                         "jobs(terminal,conditional,prob/16)": jobs, "job_graph_key_order": impl[k][0],
+                                         "probabilities_after": impl[k][1], "expected(reference)": sorted(py_ref_resolve(impl[k][0], jobs).items()),
+                                         "what": what + extra})
+    try:
+        for b in ctx.monitor_stream("S-submission", tg.HEADER,
+                                    "list (Z * list Z) * list Z * list Z * Z * list (Z * Z) * list (Z * Z)", "sub_check", mon)[:3]:
+            report(monw[b])
+    except core.ModelEvalError as e:
+        ctx.broken.append({"kind": "monitor", "name": "sub_check", "detail": str(e)[-600:]})
+        for k in monw:
+            want = py_ref_resolve(impl[k][0], cases[k][1])
+            if any(want[n] != p for n, p in impl[k][1][1]):
+                report(k, " (Python fallback of the monitor)")
+                break
+    ctx.cov["input_distribution"]["submission_cases"] = len(cases)
+    ctx.cov["input_distribution"]["submission_monitored"] = len(mon)
+
+
 def run(ctx):
     ctx.fingerprint(FILES)
     ctx.translate(["Task", "TaskGraph"])
@@ -209,11 +373,13 @@ def run(ctx):
                                                      "one child of probability 1"})
                 break
     ctx.cov["streams"]["S-choices"] = {"cases": len(wvs) * 20, "disagreements": 0}
-    ctx.cov["streams"]["S-submission"] = {"cases": nsub, "disagreements": 0}
+    ctx.cov["streams"]["S-submission-notify"] = {"cases": nsub, "disagreements": 0}
     ctx.cov["evaluations"] += len(wvs) * 20 + nsub
     ctx.rules.append("S-submission: JobGraph._generate_task_graph(resolve_conditionals_at_submission) on structured conditional job "
                      "graphs, then the real notify_task_completion with the real random.choices; S-choices: random.choices on weight "
                      "vectors with zeros, 20 samples each")
+
+    submission_stream(ctx, quick)
 
     # ---- regression of the repaired finding FTG1 (direct edge from the conditional to its join): the join must
     # survive when another branch is drawn
